@@ -187,6 +187,9 @@ func init() {
 			}
 			if run%10 == 9 {
 				keyMoveTemplate(cs, seed, run)
+			} else if or := NewRng(seed, uint64(run), 94); or.Chance(0.15) {
+				// two snapshotters: overlapping calls are refused, the others must restore to a cut
+				cs.Threads = append(cs.Threads, ThreadProg{Role: "snapshot", Arg: or.Intn(5), Txns: make([]TxnProg, 1+or.Intn(2))})
 			}
 			return cs
 		},
@@ -289,6 +292,11 @@ func init() {
 					if cs.Threads[i].Role == "snapshot" {
 						cs.Threads[i].Txns = make([]TxnProg, 1)
 					}
+				}
+				if fr.Chance(0.5) {
+					// a second snapshotter with a healthy destination: its calls may overlap the faulty
+					// one's (then they are refused) or fall into its log-copy phase
+					cs.Threads = append(cs.Threads, ThreadProg{Role: "snapshot", Healthy: true, Arg: fr.Intn(5), Txns: make([]TxnProg, 1+fr.Intn(2))})
 				}
 				return cs
 			}
